@@ -10,6 +10,10 @@
 //	           (table gen/xmlgen/names.go)
 //	scan       osmxml.Scanner over a marshalled <osm> document yields the same
 //	           objects as whole-document decoding of that text
+//	regen      marshalling the decoded value and decoding again still gives
+//	           the original value
+//
+// boundary.go adds the boundary value / shape families (audit after round 7).
 package main
 
 import (
@@ -79,6 +83,7 @@ func newB(seed int, nanos bool) *xmlgen.B {
 }
 
 func families(quick bool) []family {
+	quickTier = quick
 	var fs []family
 	add := func(name string, dims []int, run func(r *kit.Run, c Case, d []int)) {
 		fs = append(fs, family{name, prod(dims...), func(r *kit.Run, c Case) { run(r, c, radix(c.Index, dims...)) }})
@@ -251,7 +256,7 @@ func families(quick bool) []family {
 			osmContainer(r, c, doc.Want, false)
 		} else {
 			doc := b.ChangeDocOf(31, []xmlgen.Block{{Action: "create", Objs: []xmlgen.Obj{b.Small(xmlgen.KindNode)}}})
-			changeContainer(r, c, doc.Want)
+			changeContainer(r, c, doc.Want, false)
 		}
 	})
 
@@ -284,7 +289,7 @@ func families(quick bool) []family {
 	})
 
 	// Change with each block in {nil, empty, elements, bounds only, elements+bounds}
-	add("change", []int{5, 5, 5, 2, 3}, func(r *kit.Run, c Case, d []int) {
+	runChange := func(r *kit.Run, c Case, d []int, indent bool) {
 		b := newB(c.Index, d[4] == 2)
 		var blocks []xmlgen.Block
 		for i, act := range []string{"create", "modify", "delete"} {
@@ -311,8 +316,12 @@ func families(quick bool) []family {
 			blocks = append(blocks, xmlgen.Block{Action: act, Objs: objs})
 		}
 		doc := b.ChangeDocOf(uint(d[3]*31), blocks)
-		changeContainer(r, c, doc.Want)
-	})
+		changeContainer(r, c, doc.Want, indent)
+	}
+	add("change", []int{5, 5, 5, 2, 3}, func(r *kit.Run, c Case, d []int) { runChange(r, c, d, false) })
+	// the same space through xml.MarshalIndent: the blocks are written token by
+	// token by the library, the decoders then see white space between them
+	add("change-indent", []int{5, 5, 5, 2, 3}, func(r *kit.Run, c Case, d []int) { runChange(r, c, d, true) })
 
 	// Diff: every action type x directly held element x old x new
 	sideChoices := 6 // absent, empty, node, way, relation, node+way+relation
@@ -337,7 +346,7 @@ func families(quick bool) []family {
 		a.New, a.HasNew = mkSide(b, nw)
 		return a
 	}
-	add("diff", []int{3, 4, sideChoices, sideChoices, 2}, func(r *kit.Run, c Case, d []int) {
+	runDiff := func(r *kit.Run, c Case, d []int, indent bool) {
 		b := newB(c.Index, d[4] == 1)
 		acts := []xmlgen.ActionCfg{mkAction(b, d[0], d[1], d[2], d[3])}
 		var cs []xmlgen.Obj
@@ -345,8 +354,10 @@ func families(quick bool) []family {
 			cs = append(cs, b.Small(xmlgen.KindChangeset))
 		}
 		doc := b.DiffDocOf(acts, cs)
-		diffContainer(r, c, doc.Want)
-	})
+		diffContainer(r, c, doc.Want, indent)
+	}
+	add("diff", []int{3, 4, sideChoices, sideChoices, 2}, func(r *kit.Run, c Case, d []int) { runDiff(r, c, d, false) })
+	add("diff-indent", []int{3, 4, sideChoices, sideChoices, 2}, func(r *kit.Run, c Case, d []int) { runDiff(r, c, d, true) })
 	// two actions: the neighbour must not leak into or out of the action
 	neighbours := [][4]int{{0, 1, 0, 0}, {1, 0, 2, 2}, {2, 0, 3, 0}, {1, 0, 0, 4}}
 	add("diff-pair", []int{3, 4, sideChoices, sideChoices, len(neighbours), 2}, func(r *kit.Run, c Case, d []int) {
@@ -359,7 +370,7 @@ func families(quick bool) []family {
 			acts = []xmlgen.ActionCfg{a2, a1}
 		}
 		doc := b.DiffDocOf(acts, nil)
-		diffContainer(r, c, doc.Want)
+		diffContainer(r, c, doc.Want, false)
 	})
 	add("diff-bounds", []int{3, 2, 2}, func(r *kit.Run, c Case, d []int) {
 		b := newB(c.Index, false)
@@ -373,16 +384,19 @@ func families(quick bool) []family {
 			a.New = append([]xmlgen.Obj{b.Small(xmlgen.KindBounds)}, a.New...)
 		}
 		doc := b.DiffDocOf([]xmlgen.ActionCfg{a}, nil)
-		diffContainer(r, c, doc.Want)
+		diffContainer(r, c, doc.Want, false)
 	})
 	// boundary ids (placeholder -1, int32 limits, 2^31, 2^40 and beyond) in
 	// the element id / nd and member refs / changeset ids / all of them, for a
 	// standalone object and inside every container position
 	wheres := []uint{xmlgen.IDAtElem, xmlgen.IDAtNdRef | xmlgen.IDAtMemberRef, xmlgen.IDAtChangeset, xmlgen.IDAtAll}
 	actNames := []string{"create", "modify", "delete"}
-	add("id-range", []int{len(xmlgen.IDRange), 3, 11, len(wheres)}, func(r *kit.Run, c Case, d []int) {
+	// (idRange = xmlgen.IDRange followed by the further boundary ids of
+	// boundary.go: 0, 1, 2^31-1, 2^32, 2^40-1, -2^40, 2^53+1, the int64 limits)
+	idRange := append(append([]int64(nil), xmlgen.IDRange...), idRangeExtra...)
+	add("id-range", []int{len(idRange), 3, 11, len(wheres)}, func(r *kit.Run, c Case, d []int) {
 		b := newB(47, true)
-		id := xmlgen.IDRange[d[0]]
+		id := idRange[d[0]]
 		kind := xmlgen.KindNode + d[1]
 		forced := func() xmlgen.Obj {
 			b.ForceID, b.ForceWhere = &id, wheres[d[3]]
@@ -406,17 +420,18 @@ func families(quick bool) []family {
 			osmContainer(r, c, x.Want, false)
 		case pl <= 4:
 			x := b.ChangeDocOf(1, []xmlgen.Block{{Action: actNames[pl-2], Objs: []xmlgen.Obj{b.Small(kind), forced(), b.Small(xmlgen.KindNode)}}})
-			changeContainer(r, c, x.Want)
+			changeContainer(r, c, x.Want, false)
 		case pl <= 7:
 			o := forced()
 			n := b.Small(xmlgen.KindNode)
 			x := b.DiffDocOf([]xmlgen.ActionCfg{{Type: actNames[pl-5], Direct: &o}, {Type: "create", Direct: &n}}, nil)
-			diffContainer(r, c, x.Want)
+			diffContainer(r, c, x.Want, false)
 		default:
 			x := b.DiffDocOf([]xmlgen.ActionCfg{{Type: actNames[pl-8], HasOld: true, Old: []xmlgen.Obj{forced()}, HasNew: true, New: []xmlgen.Obj{forced()}}}, nil)
-			diffContainer(r, c, x.Want)
+			diffContainer(r, c, x.Want, false)
 		}
 	})
+	boundaryFamilies(quick, add)
 	return fs
 }
 
@@ -464,15 +479,20 @@ func clip(s string, n int) string {
 	return s
 }
 
-// object round-trips one standalone object.
+// object round-trips one standalone object (xml.Marshal).
 func object(r *kit.Run, c Case, kind string, v interface{}, into interface{}) {
-	data, err := marshalChecked(r, c, kind, v, false)
+	objectOpt(r, c, kind, v, into, false)
+}
+
+// objectOpt is object with the choice of xml.Marshal / xml.MarshalIndent.
+func objectOpt(r *kit.Run, c Case, kind string, v interface{}, into interface{}, indent bool) {
+	data, err := marshalChecked(r, c, kind, v, indent)
 	if err != nil {
 		r.Violation(errClause("marshal", err)+"/"+kind, fmt.Sprintf("%v: %v", c, err), c)
 		return
 	}
 	record(r, c, kind, data)
-	byValue(r, c, kind, v, data, false)
+	byValue(r, c, kind, v, data, indent)
 	if err := safeUnmarshal(data, into); err != nil {
 		r.Violation(errClause("unmarshal", err)+"/"+kind, fmt.Sprintf("%v: %v\n%s", c, err, clip(string(data), 600)), c)
 		return
@@ -484,6 +504,7 @@ func object(r *kit.Run, c Case, kind string, v interface{}, into interface{}) {
 	// encoder (the type carries no element name), so only what is below it is
 	// judged; for every other kind the root name is part of the check.
 	checkNames(r, c, kind, data, kind == "bounds")
+	regen(r, c, kind, v, into, reflect.New(reflect.TypeOf(into).Elem()).Interface(), indent)
 }
 
 func osmContainer(r *kit.Run, c Case, v *osm.OSM, indent bool) {
@@ -505,6 +526,7 @@ func osmContainer(r *kit.Run, c Case, v *osm.OSM, indent bool) {
 		r.Violation("roundtrip/"+shapeOf("osm", osmeq.Path(d)), fmt.Sprintf("%v: value != Unmarshal(Marshal(value)) at %s\nmarshalled: %s", c, d, clip(string(data), 600)), c)
 	}
 	checkNames(r, c, "osm", data, false)
+	regen(r, c, "osm", v, got, &osm.OSM{}, indent)
 
 	// streaming scan of the same text against whole-document decoding of it
 	sc := osmxml.New(context.Background(), bytes.NewReader(data))
@@ -544,14 +566,14 @@ func osmContainer(r *kit.Run, c Case, v *osm.OSM, indent bool) {
 	}
 }
 
-func changeContainer(r *kit.Run, c Case, v *osm.Change) {
-	data, err := marshalChecked(r, c, "osmChange", v, false)
+func changeContainer(r *kit.Run, c Case, v *osm.Change, indent bool) {
+	data, err := marshalChecked(r, c, "osmChange", v, indent)
 	if err != nil {
 		r.Violation(errClause("marshal", err)+"/osmChange", fmt.Sprintf("%v: %v", c, err), c)
 		return
 	}
 	record(r, c, "osmChange", data)
-	byValue(r, c, "osmChange", v, data, false)
+	byValue(r, c, "osmChange", v, data, indent)
 	got := &osm.Change{}
 	if err := safeUnmarshal(data, got); err != nil {
 		r.Violation(errClause("unmarshal", err)+"/osmChange", fmt.Sprintf("%v: %v\n%s", c, err, clip(string(data), 600)), c)
@@ -561,6 +583,7 @@ func changeContainer(r *kit.Run, c Case, v *osm.Change) {
 		r.Violation("roundtrip/"+shapeOf("osmChange", osmeq.Path(d)), fmt.Sprintf("%v: value != Unmarshal(Marshal(value)) at %s\nmarshalled: %s", c, d, clip(string(data), 600)), c)
 	}
 	checkNames(r, c, "osmChange", data, false)
+	regen(r, c, "osmChange", v, got, &osm.Change{}, indent)
 	var want flat
 	want.add(got.Create)
 	want.add(got.Modify)
@@ -568,14 +591,14 @@ func changeContainer(r *kit.Run, c Case, v *osm.Change) {
 	scanAgainst(r, c, "osmChange", data, &want)
 }
 
-func diffContainer(r *kit.Run, c Case, v *osm.Diff) {
-	data, err := marshalChecked(r, c, "diff", v, false)
+func diffContainer(r *kit.Run, c Case, v *osm.Diff, indent bool) {
+	data, err := marshalChecked(r, c, "diff", v, indent)
 	if err != nil {
 		r.Violation(errClause("marshal", err)+"/diff", fmt.Sprintf("%v: %v", c, err), c)
 		return
 	}
 	record(r, c, "diff", data)
-	byValue(r, c, "diff", v, data, false)
+	byValue(r, c, "diff", v, data, indent)
 	got := &osm.Diff{}
 	if err := safeUnmarshal(data, got); err != nil {
 		r.Violation(errClause("unmarshal", err)+"/diff", fmt.Sprintf("%v: %v\n%s", c, err, clip(string(data), 600)), c)
@@ -585,6 +608,7 @@ func diffContainer(r *kit.Run, c Case, v *osm.Diff) {
 		r.Violation("roundtrip/"+shapeOf("diff", osmeq.Path(d)), fmt.Sprintf("%v: value != Unmarshal(Marshal(value)) at %s\nmarshalled: %s", c, d, clip(string(data), 600)), c)
 	}
 	checkNames(r, c, "diff", data, false)
+	regen(r, c, "diff", v, got, &osm.Diff{}, indent)
 	var want flat
 	for _, a := range got.Actions {
 		want.add(a.OSM)
@@ -743,6 +767,41 @@ func checkNames(r *kit.Run, c Case, kind string, data []byte, skipRoot bool) {
 	}
 }
 
+// quickTier is set by families(): the tier decides how much of the big
+// lattices goes through regen.
+var quickTier bool
+
+// the families whose space is a plain presence lattice of thousands of
+// points: in the quick tier every 11th point also goes through regen (11 is
+// coprime to every radix of these spaces, so every digit of every dimension
+// still occurs with every digit of every other one somewhere in the subset);
+// the thorough tier takes them all
+var bigLattice = map[string]bool{"way": true, "relation": true, "changeset": true, "diff-pair": true,
+	"osm": true, "node": true, "note": true, "user": true}
+
+// regen: a decoded value is a value too (and the usual one in practice: read,
+// change, write). Decoding fills in the XMLName bookkeeping fields and turns
+// nil lists into whatever the decoder allocates; marshalling the decoded value
+// and decoding that text must still give the original value.
+func regen(r *kit.Run, c Case, kind string, v, got, into interface{}, indent bool) {
+	if quickTier && bigLattice[c.Family] && c.Index%11 != 0 {
+		return
+	}
+	r.Add("regen_cases", 1)
+	data, err := safeMarshal(got, indent)
+	if err != nil {
+		r.Violation(errClause("marshal", err)+"/decoded-value/"+kind, fmt.Sprintf("%v: marshalling the value that decoding returned: %v", c, err), c)
+		return
+	}
+	if err := safeUnmarshal(data, into); err != nil {
+		r.Violation(errClause("unmarshal", err)+"/decoded-value/"+kind, fmt.Sprintf("%v: %v\n%s", c, err, clip(string(data), 600)), c)
+		return
+	}
+	if d := osmeq.Diff(v, into); d != "" {
+		r.Violation("roundtrip-decoded-value/"+shapeOf(kind, osmeq.Path(d)), fmt.Sprintf("%v: value != Unmarshal(Marshal(Unmarshal(Marshal(value)))) at %s\nsecond text: %s", c, d, clip(string(data), 600)), c)
+	}
+}
+
 // A panic inside the library is an observation about one value, not the end
 // of the run: the guards turn it into an error with its own violation clause.
 type panicErr struct{ msg string }
@@ -829,6 +888,12 @@ func main() {
 		r.Rule("complete mixed-radix products per family (per-kind presence lattices of every field incl. annotations; " +
 			"nested nd/update/member/comment lattices; every string position x text class; OSM over every subset of the 7 kinds x root attribute subsets; " +
 			"Change over {nil,empty,elements,bounds,elements+bounds}^3; Diff over type x direct x old x new, singly and in pairs; boundary ids (-1, int32 limits, 2^31, 2^40, 2^40+1, 2^44+5, 2^62) x node/way/relation x {element id, refs, changeset ids, all} x {standalone, OSM, each Change block, bare/old+new of each Diff action type}). " +
+			"Boundary families (boundary.go): every id / int / float / time / note-date / string leaf of the complete object of each kind x the class alphabet " +
+			"(ids 0,+-1,127,128,2^31-1,2^31,2^32,2^40-1,+-2^40,2^53+1,int64 limits; ints also 65535/65536; floats 0,-0,+-90,+-180,1e-7,0.1+0.2,1e21,1e-5,2^53+1,+-MaxFloat64,5e-324; " +
+			"times zero,year 0,1969,1970,CommitInfoStart-1s/+0/+1ns,2038,2262-04-11T23:47:16.854775807Z,2262-04-12,2500,9999, fractions of 1/2/6/9 digits; 11 further text classes incl. >64 KiB, white space only, NEL/LS/BOM, plane limits) " +
+			"standalone and between neighbours in an <osm>; every string at once per text class; every list reversed / doubled; aliased pointers; pointers to zero values; zero objects in every container position; " +
+			"lists of ~2400 (quick) / ~40000 (thorough); Diff without actions; MarshalIndent for objects, Change and Diff; the id-range family also takes 0, 1, 2^31-1, 2^32, 2^40-1, -2^40, 2^53+1 and the int64 limits. " +
+			"regen clause: Unmarshal(Marshal(decoded value)) equals the original value (every 11th point of the big lattices in the quick tier, all in thorough). " +
 			"A case is non-trivial when its marshalled text differs from the zero value's; distinct = distinct (family, marshalled text).")
 		r.Assume("encoding/xml (standard library) is trusted as the tokenizer of the output and as the engine the library's struct tags run on")
 		r.Assume("expected values are the enumerated Go values themselves; equality is gen/osmeq (nil==empty, instants, empty discussion==absent)")
